@@ -22,7 +22,7 @@ META = {
                    'inductive error invariants |mean_hat - mean| <= 4 n u max|v| (n <= 10^6) and |s_hat - s| <= 4 u max|v| / alpha '
                    '(alpha in [1e-6, 1]), the boundedness they imply, and exact zero variance on constant streams.',
     'bounds': {'quick': {'welford n': '1..10^6 (symbolic)', 'alpha': '[1e-6, 1]', 'constant stream n': '<= 6'},
-               'thorough': {'welford n': '1..10^6 (symbolic)', 'alpha': '[1e-6, 1]', 'constant stream n': '<= 10'}},
+               'thorough': {'welford n': '1..10^6 (symbolic)', 'alpha': '[1e-6, 1]', 'constant stream n': '<= 16'}},
     'outside': ['the relative variance bound n*eps*kappa (nonlinear query unknown after 600 s already for n = 2)',
                 'error propagation through the explainers', 'overflow, underflow and denormals (standard model)',
                 'alpha below 1e-6 (the stated bound exceeds max|v| there and is not inductive)',
@@ -38,7 +38,7 @@ QUERY_TIMEOUT_MS = {'quick': 180000, 'thorough': 600000}
 def configs(tier):
     cfgs = [dict(group='welford_mean_step'), dict(group='welford_mean_first'), dict(group='smooth_step', _cost=50),
             dict(group='smooth_first')]
-    nmax = 6 if tier == 'quick' else 10
+    nmax = 6 if tier == 'quick' else 16
     for n in range(1, nmax + 1):
         cfgs.append(dict(group='constant_stream_variance', n=n))
     cfgs.append(dict(group='textbook_variance_is_refuted'))
